@@ -35,6 +35,9 @@ OutClass(e) ==
   ELSE IF \E i \in 1..n : e.keys[i] # cur.rows[e.ids[i] + 1] THEN "row-not-intact"
   ELSE IF Cardinality({e.ids[i] : i \in 1..n}) # n THEN "duplicated-row"
   ELSE IF e.dedupe = 0 /\ n # N THEN "lost-rows"
+  \* sorted by the repeated column: what the order of two lists is, is not in the statement; the buffers and the
+  \* sorting writer must at least produce the order that the library's comparator (used by merges) defines
+  ELSE IF e.by = "rk" THEN (IF \E i \in 1..Len(e.cmp) : e.cmp[i] > 0 THEN "comparator-disagrees@repeated" ELSE "ok")
   ELSE IF \E i \in 1..(n - 1) : RowCmp(e.keys[i], e.keys[i + 1]) > 0 THEN "not-sorted"
   ELSE IF \E i \in 1..Len(e.cmp) : e.cmp[i] > 0 THEN "comparator-disagrees"
   ELSE IF e.dedupe = 1 /\ (\E i \in 1..(n - 1) : RowCmp(e.keys[i], e.keys[i + 1]) = 0) THEN "duplicate-key"
